@@ -7,6 +7,7 @@ package main
 import (
 	"encoding/json"
 	"fmt"
+	"runtime"
 	"sort"
 	"strconv"
 	"strings"
@@ -171,6 +172,13 @@ type System struct {
 	events []AbsEvent
 	sysId  int
 	obs    *coreObserver
+	// C14
+	idCtr       []uint64 // id -> message counter, in order of first appearance
+	cbMu        sync.Mutex
+	cbLog       []CbFire
+	curRecv     Action
+	baseG       int
+	needOffsets bool
 }
 
 var sysCounter int
@@ -237,6 +245,7 @@ func NewSystem(topo *Topo) *System {
 	}
 	s.obs = &coreObserver{s}
 	spine.VerifSubscribeCore(s.obs)
+	s.baseG = runtime.NumGoroutine()
 	return s
 }
 
